@@ -1,0 +1,11 @@
+//go:build verif
+
+package engine
+
+import "context"
+
+// VerifDropMeasurement is shard.DropMeasurement on the shard wrapped by VerifShard (verification hook for C01:
+// dropped data must not come back after a crash). Thin wrapper, no behaviour of its own.
+func (v *VerifShard) VerifDropMeasurement(name string) error {
+	return v.sh.DropMeasurement(context.Background(), name)
+}
